@@ -7,7 +7,7 @@ if ! git diff --quiet; then echo "/repo has local changes, refusing"; exit 2; fi
 git apply "$patch" || { echo "patch does not apply"; exit 2; }
 # evidence and replays written while the seeded change is applied must not survive: they describe a modified tree
 bk=$(mktemp -d /tmp/pgaverif_evid.XXXXXX); cp -a /verif/evidence/. "$bk"/
-trap 'git -C /repo checkout -- . ; rm -rf /verif/evidence; mkdir -p /verif/evidence; cp -a "$bk"/. /verif/evidence/; rm -rf "$bk"; rm -f /verif/replays/*.json' EXIT
+trap 'git -C /repo checkout -- . ; rm -rf /verif/evidence; mkdir -p /verif/evidence; cp -a "$bk"/. /verif/evidence/; rm -rf "$bk"; rm -f /verif/replays/*.json; python3 /verif/harness/gen_tables.py' EXIT
 cd /verif
 for c in "$@"; do
   echo "=== $c with $(basename $(dirname $patch))/$(basename $patch)"
